@@ -29,9 +29,23 @@ type val struct {
 	isPtr   bool            // pointer to the symbolic struct
 	errTerm string          // kError: a PacketModel.perr term
 	str     bool            // a string (dropped)
+	buf     bool            // a byte slice this function creates or writes: term = its current content (list N)
+	alias   string          // this Go variable denotes the same slice as the local variable `alias`
+	nilTerm string          // []byte field of a receiver that is compared with nil somewhere: the bool "is nil"
+	lazy    *lazyShift      // untyped constant << non-constant count: typed by the context (Go spec, "Operators")
 }
 
-type bind struct{ name, rhs string }
+type lazyShift struct {
+	left  constant.Value
+	count *val
+	at    ast.Node
+}
+
+// bind is a hoisted binding: let* name := rhs in (monadic) or let name := rhs in (pure)
+type bind struct {
+	name, rhs string
+	pure      bool
+}
 
 func numeral(v constant.Value, t *typ, p *pkg, at ast.Node) string {
 	s := v.ExactString()
@@ -42,18 +56,24 @@ func numeral(v constant.Value, t *typ, p *pkg, at ast.Node) string {
 			return "(" + s + ")%Z"
 		}
 		return s + "%Z"
-	case kU8, kU16:
+	case kU8, kU16, kU32, kU64:
 		if neg {
 			p.bad(at, "negative constant %s at type %s", s, t)
 		}
-		lim := int64(256)
-		if t.k == kU16 {
-			lim = 65536
-		}
-		if n, ok := constant.Int64Val(v); !ok || n >= lim {
+		lim := constant.Shift(constant.MakeInt64(1), token.SHL, uint(t.bits()))
+		if !constant.Compare(v, token.LSS, lim) {
 			p.bad(at, "constant %s overflows %s", s, t)
 		}
 		return s
+	case kI8, kI16, kI32, kI64:
+		lim := constant.Shift(constant.MakeInt64(1), token.SHL, uint(t.bits()-1))
+		if !constant.Compare(v, token.LSS, lim) || constant.Compare(v, token.LSS, constant.UnaryOp(token.SUB, lim, 0)) {
+			p.bad(at, "constant %s overflows %s", s, t)
+		}
+		if neg {
+			return "(" + s + ")%Z"
+		}
+		return s + "%Z"
 	}
 	p.bad(at, "constant at type %s", t)
 	return ""
@@ -61,6 +81,9 @@ func numeral(v constant.Value, t *typ, p *pkg, at ast.Node) string {
 
 // conv gives v the type t if v is an untyped constant; otherwise the types must agree.
 func (f *ftrans) conv(v *val, t *typ, at ast.Node) *val {
+	if v.lazy != nil {
+		return f.forceShift(v, t, at)
+	}
 	if v.t.k == kUntypedInt {
 		if !t.isNum() {
 			f.p.bad(at, "integer constant used at type %s", t)
@@ -76,8 +99,44 @@ func (f *ftrans) conv(v *val, t *typ, at ast.Node) *val {
 	return v
 }
 
+// forceShift: `c << n` with c an untyped constant and n not constant, now that the context type is known.
+func (f *ftrans) forceShift(v *val, t *typ, at ast.Node) *val {
+	if !t.isUint() {
+		f.p.bad(at, "constant shifted by a non-constant count at type %s (only unsigned types are in the fragment)", t)
+	}
+	left := numeral(v.lazy.left, t, f.p, at)
+	w := widthName(t)
+	c := v.lazy.count
+	switch {
+	case c.t.isUint():
+		return &val{t: t, term: fmt.Sprintf("(shl%s %s %s)", w, left, atom(c.term))}
+	case c.t.k == kInt:
+		f.needMonadic(at, "a shift by a signed count")
+		return &val{t: t, term: f.bind(fmt.Sprintf("zshl%s %s %s", w, left, atom(c.term)))}
+	}
+	f.p.bad(at, "shift count of type %s", c.t)
+	return nil
+}
+
+func widthName(t *typ) string {
+	switch t.k {
+	case kU8:
+		return "8"
+	case kU16:
+		return "16"
+	case kU32:
+		return "32"
+	case kU64:
+		return "64"
+	}
+	return "?"
+}
+
 // defaulted gives an untyped constant its default type (int).
 func (f *ftrans) defaulted(v *val, at ast.Node) *val {
+	if v.lazy != nil {
+		f.p.bad(at, "constant shifted by a non-constant count without a typed context")
+	}
 	if v.t.k == kUntypedInt {
 		return f.conv(v, tInt, at)
 	}
@@ -90,9 +149,9 @@ func (f *ftrans) toZ(v *val, at ast.Node) string {
 	switch v.t.k {
 	case kUntypedInt:
 		return numeral(v.cv, tInt, f.p, at)
-	case kInt:
+	case kInt, kI8, kI16, kI32, kI64:
 		return v.term
-	case kU8, kU16:
+	case kU8, kU16, kU32, kU64:
 		return "(Z.of_N " + v.term + ")"
 	}
 	f.p.bad(at, "integer expected, have %s", v.t)
@@ -150,6 +209,11 @@ func (f *ftrans) ident(x *ast.Ident) *val {
 		f.p.bad(x, "blank identifier as a value")
 	}
 	if v, ok := f.env.lookup(x.Name); ok {
+		if v.alias != "" {
+			if r, ok := f.env.lookup(v.alias); ok {
+				return r
+			}
+		}
 		return v
 	}
 	if c, ok := f.p.consts[f.fd.name+"."+x.Name]; ok {
@@ -246,6 +310,26 @@ func (f *ftrans) binary(x *ast.BinaryExpr) *val {
 		return f.shift(x, a)
 	}
 	b := f.expr(x.Y)
+	// comparison of a []byte receiver field with nil
+	if (x.Op == token.EQL || x.Op == token.NEQ) && (a.t.k == kNil || b.t.k == kNil) {
+		o := a
+		if a.t.k == kNil {
+			o = b
+		}
+		if o.nilTerm != "" {
+			if x.Op == token.EQL {
+				return &val{t: tBool, term: o.nilTerm}
+			}
+			return &val{t: tBool, term: "negb " + o.nilTerm}
+		}
+	}
+	if a.lazy != nil && b.lazy == nil && b.t.k != kUntypedInt {
+		a = f.conv(a, b.t, x.X)
+	} else if b.lazy != nil && a.lazy == nil && a.t.k != kUntypedInt {
+		b = f.conv(b, a.t, x.Y)
+	} else if a.lazy != nil || b.lazy != nil {
+		f.p.bad(x, "constant shifted by a non-constant count without a typed context")
+	}
 	// constant folding of two untyped constants
 	if a.t.k == kUntypedInt && b.t.k == kUntypedInt {
 		switch x.Op {
@@ -288,9 +372,9 @@ func (f *ftrans) binary(x *ast.BinaryExpr) *val {
 			l, r = B, A
 		}
 		switch t.k {
-		case kInt:
+		case kInt, kI8, kI16, kI32, kI64:
 			return &val{t: tBool, term: fmt.Sprintf("(%s %s %s)%%Z", l, zop, r)}
-		case kU8, kU16:
+		case kU8, kU16, kU32, kU64:
 			return &val{t: tBool, term: fmt.Sprintf("(%s %s %s)", l, nop, r)}
 		}
 		f.p.bad(x, "ordering at type %s", t)
@@ -300,9 +384,9 @@ func (f *ftrans) binary(x *ast.BinaryExpr) *val {
 	case token.EQL, token.NEQ:
 		var s string
 		switch t.k {
-		case kInt:
+		case kInt, kI8, kI16, kI32, kI64:
 			s = fmt.Sprintf("(%s =? %s)%%Z", A, B)
-		case kU8, kU16:
+		case kU8, kU16, kU32, kU64:
 			s = fmt.Sprintf("(%s =? %s)", A, B)
 		case kBool:
 			s = fmt.Sprintf("(Bool.eqb %s %s)", A, B)
@@ -342,11 +426,8 @@ func (f *ftrans) binary(x *ast.BinaryExpr) *val {
 			}
 			return &val{t: t, term: fmt.Sprintf("(Z.rem %s %s)", A, B)}
 		}
-	case kU8, kU16:
-		w := "8"
-		if t.k == kU16 {
-			w = "16"
-		}
+	case kU8, kU16, kU32, kU64:
+		w := widthName(t)
 		switch x.Op {
 		case token.ADD:
 			return &val{t: t, term: fmt.Sprintf("(add%s %s %s)", w, A, B)}
@@ -381,8 +462,11 @@ func (f *ftrans) shift(x *ast.BinaryExpr, a *val) *val {
 			return &val{t: tUntyped, cv: constant.Shift(a.cv, x.Op, uint(n))}
 		}
 	}
+	if a.t.k == kUntypedInt && a.lazy == nil && x.Op == token.SHL && (b.t.isUint() || b.t.k == kInt) {
+		return &val{t: tUntyped, lazy: &lazyShift{left: a.cv, count: b, at: x}}
+	}
 	if !a.t.isUint() {
-		f.p.bad(x, "shift of a value of type %s (only uint8/uint16 are in the fragment)", a.t)
+		f.p.bad(x, "shift of a value of type %s (only unsigned types are in the fragment)", a.t)
 	}
 	var n string
 	switch b.t.k {
@@ -391,7 +475,7 @@ func (f *ftrans) shift(x *ast.BinaryExpr, a *val) *val {
 			f.p.bad(x, "negative shift count")
 		}
 		n = b.cv.ExactString()
-	case kU8, kU16:
+	case kU8, kU16, kU32, kU64:
 		n = atom(b.term)
 	default:
 		f.p.bad(x, "shift count of type %s", b.t)
@@ -400,10 +484,7 @@ func (f *ftrans) shift(x *ast.BinaryExpr, a *val) *val {
 	if x.Op == token.SHR {
 		return &val{t: a.t, term: fmt.Sprintf("(N.shiftr %s %s)", A, n)}
 	}
-	if a.t.k == kU8 {
-		return &val{t: a.t, term: fmt.Sprintf("(shl8 %s %s)", A, n)}
-	}
-	return &val{t: a.t, term: fmt.Sprintf("(shl16 %s %s)", A, n)}
+	return &val{t: a.t, term: fmt.Sprintf("(shl%s %s %s)", widthName(a.t), A, n)}
 }
 
 // shortCircuit: a && b / a || b.  If evaluating b needs monadic bindings (it can panic), they are
@@ -427,7 +508,11 @@ func (f *ftrans) shortCircuit(x *ast.BinaryExpr) *val {
 	f.needMonadic(x, "a panicking operand of "+op)
 	var sb strings.Builder
 	for _, bd := range inner {
-		fmt.Fprintf(&sb, "let* %s := %s in ", bd.name, bd.rhs)
+		kw := "let*"
+		if bd.pure {
+			kw = "let"
+		}
+		fmt.Fprintf(&sb, "%s %s := %s in ", kw, bd.name, bd.rhs)
 	}
 	rhs := "(" + sb.String() + "Ok " + atom(b.term) + ")"
 	var whole string
@@ -452,8 +537,18 @@ func (f *ftrans) index(x *ast.IndexExpr) *val {
 		}
 		return base.elems[n]
 	}
+	if (base.t.k == kBytes || base.t.k == kBools || base.t.k == kArray) && !base.isSlice && base.term != "" {
+		// a list value: a re-slice, a local buffer, a []bool / [n]byte parameter
+		f.needMonadic(x, "an index expression")
+		i := f.expr(x.Index)
+		et := tU8
+		if base.t.k == kBools {
+			et = tBool
+		}
+		return &val{t: et, term: f.bind(fmt.Sprintf("lget %s %s", atom(base.term), atom(f.toZ(i, x.Index))))}
+	}
 	if base.t.k != kBytes || !base.isSlice {
-		f.p.bad(x, "indexing something that is not a []byte parameter")
+		f.p.bad(x, "indexing a value of type %s", base.t)
 	}
 	f.needMonadic(x, "an index expression")
 	i := f.expr(x.Index)
@@ -469,8 +564,14 @@ func (f *ftrans) slice(x *ast.SliceExpr) *val {
 		// arr[:] -- the array as a slice value
 		return base
 	}
+	if base.t.k == kArray && base.term != "" && x.Low == nil && x.High == nil {
+		return &val{t: tBytes, term: base.term, cv: constant.MakeInt64(int64(base.t.n))}
+	}
+	if base.t.k == kBytes && !base.isSlice && base.term != "" {
+		return f.sliceList(x, base)
+	}
 	if base.t.k != kBytes || !base.isSlice {
-		f.p.bad(x, "re-slicing something that is not a []byte parameter")
+		f.p.bad(x, "re-slicing a value of type %s", base.t)
 	}
 	f.needMonadic(x, "a slice expression")
 	var lo, hi string
@@ -505,6 +606,40 @@ func (f *ftrans) slice(x *ast.SliceExpr) *val {
 		}
 	}
 	return v
+}
+
+// sliceList: l[a:b] / l[a:] / l[:b] of a list value (read; the result is a copy, see GenPrelude2)
+func (f *ftrans) sliceList(x *ast.SliceExpr, base *val) *val {
+	if x.Low == nil && x.High == nil {
+		return &val{t: tBytes, term: base.term, cv: base.cv}
+	}
+	f.needMonadic(x, "a slice expression")
+	lo, hi := f.sliceBounds(x, base.term)
+	v := &val{t: tBytes, term: f.bind(fmt.Sprintf("lsub %s %s %s", atom(base.term), lo, hi))}
+	if x.High != nil {
+		l, h := constant.MakeInt64(0), f.peekConst(x.High)
+		if x.Low != nil {
+			l = f.peekConst(x.Low)
+		}
+		if l != nil && h != nil {
+			if d, ok := constant.Int64Val(constant.BinaryOp(h, token.SUB, l)); ok {
+				v.cv = constant.MakeInt64(d)
+			}
+		}
+	}
+	return v
+}
+
+// sliceBounds gives the two bounds of l[a:b] as Z terms (missing ones filled in).
+func (f *ftrans) sliceBounds(x *ast.SliceExpr, baseTerm string) (lo, hi string) {
+	lo, hi = "0%Z", "(llen "+atom(baseTerm)+")"
+	if x.Low != nil {
+		lo = atom(f.toZ(f.expr(x.Low), x.Low))
+	}
+	if x.High != nil {
+		hi = atom(f.toZ(f.expr(x.High), x.High))
+	}
+	return
 }
 
 // peekConst evaluates e if it is a constant expression (no side effects on the translation state).
@@ -606,12 +741,14 @@ func (f *ftrans) zero(t *typ) *val {
 	switch t.k {
 	case kInt:
 		return &val{t: t, term: "0%Z", cv: constant.MakeInt64(0)}
-	case kU8, kU16:
+	case kU8, kU16, kU32, kU64, kF32, kFloat:
 		return &val{t: t, term: "0", cv: constant.MakeInt64(0)}
+	case kI8, kI16, kI32, kI64:
+		return &val{t: t, term: "0%Z", cv: constant.MakeInt64(0)}
 	case kBool:
 		return &val{t: t, term: "false"}
 	case kBytes:
-		return &val{t: t, term: "[]", isNil: true, cv: constant.MakeInt64(0)}
+		return &val{t: t, term: "[]", isNil: true, cv: constant.MakeInt64(0), buf: true}
 	case kString:
 		return &val{t: t, str: true}
 	case kArray:
@@ -630,6 +767,16 @@ func (f *ftrans) zero(t *typ) *val {
 func (f *ftrans) composite(x *ast.CompositeLit) *val {
 	t := f.p.typeOfExpr(x.Type)
 	switch t.k {
+	case kBytes:
+		// []byte{a, b, ...}: a fresh slice
+		var els []string
+		for _, el := range x.Elts {
+			if _, isKV := el.(*ast.KeyValueExpr); isKV {
+				f.p.bad(x, "keyed slice literal")
+			}
+			els = append(els, f.conv(f.expr(el), tU8, el).term)
+		}
+		return &val{t: tBytes, term: "[" + strings.Join(els, "; ") + "]", buf: true, cv: constant.MakeInt64(int64(len(els)))}
 	case kArray:
 		v := &val{t: t}
 		for _, el := range x.Elts {
@@ -723,8 +870,8 @@ func (f *ftrans) materialize(v *val, at ast.Node) (term string, coqType string) 
 			if fv.term == "" {
 				f.p.bad(at, "field %s.%s has no term", name, fname)
 			}
-			if fv.isSlice {
-				f.p.bad(at, "field %s.%s aliases the whole input slice", name, fname)
+			if fv.isSlice != f.p.sliceFields[name+"."+fname] {
+				f.p.bad(at, "field %s.%s: slice representation mismatch (the model keeps it as %v)", name, fname, f.p.sliceFields[name+"."+fname])
 			}
 			args = append(args, atom(fv.term))
 		}
